@@ -287,6 +287,10 @@ pub fn make_knobs(profile: Profile, rng: &mut Rng, thorough: bool) -> Knobs {
             k.clock_jump_pct = pct(rng, 6, 2, 10);
             k.clock_back_pct = pct(rng, 4, 1, 6);
         }
+        Profile::Lifecycle => {
+            k.n_lps = 3;
+            k.n_traders = 1;
+        }
         Profile::TwoHop => {
             k.adaptive_pct = *rng.pick(&[0u64, 0, 40, 100]);
             k.n_pools = 3;
@@ -837,7 +841,13 @@ impl Gen {
     fn wake(&mut self, id: usize, ledger: &Ledger) {
         let mut actor = self.w.actors[id].clone();
         let flow = match actor.role {
-            Role::Lp => plan_lp(&self.w, &self.knobs, &mut actor, ledger),
+            Role::Lp => {
+                if self.knobs.profile == Profile::Lifecycle && actor.rng.chance(3, 4) {
+                    crate::gen3::plan_lifecycle_lp(&self.w, &self.knobs, &mut actor, ledger)
+                } else {
+                    plan_lp(&self.w, &self.knobs, &mut actor, ledger)
+                }
+            }
             Role::Trader => plan_trader(&self.w, &self.knobs, &mut actor, ledger),
             Role::Keeper => plan_keeper(&self.w, &mut actor, ledger),
             Role::FeeAuth => plan_fee_auth(&self.w, &mut actor, ledger),
